@@ -19,7 +19,7 @@ TECHNIQUE = (
 )
 RULE = (
     "editions: every key of EDITIONS_LOOKUP (all edition names and variations) rendered as 'Foo v. Bar, 12 R 345'; those "
-    "with >=2 candidate editions x years {none, start-1, start, end, end+1 of each candidate, 1599, 1600, this year, "
+    "with >=2 candidate editions x years {none, start-1, start, end, end+1 of each edition the string can denote (exact or variation), every 10th year (quick) / every year (thorough) from 1600, 1599, 1600, this year, "
     "next year, next year+1, 0000, 9999} x 7 year positions; docs: all concatenations of <=k fragments of A2. "
     "distinct = distinct text; non-trivial = a resource citation with >=2 candidate editions or a year was returned."
 )
@@ -34,6 +34,7 @@ ALPHABETS = {"A2": A2}
 DEPTH = {"quick": {"AC": 3, "HS": 2, "REF": 2}, "thorough": {"AC": 4, "HS": 3, "REF": 2}}
 POSITIONS = ["post", "court", "bracket", "pre", "range", "parallel-after", "parallel-first"]
 _REPS = {}
+_TIER = {"t": "quick"}
 
 
 def setup(tier, seed):
@@ -41,6 +42,8 @@ def setup(tier, seed):
         tokenizer("HS")
         tokenizer("REF")
     _REPS["all"] = sorted(T.EDITIONS_LOOKUP)
+    if tier in ("quick", "thorough"):
+        _TIER["t"] = tier
 
 
 def bounds(tier):
@@ -140,7 +143,11 @@ def edition_cases(sh):
         cand = probe[0].exact_editions or probe[0].variation_editions
         if len(set(cand)) < 2:
             continue
-        for y in years_for(cand):
+        # boundary years of every edition the string can denote at all (exact names AND variations: a year that only
+        # a non-candidate edition covers must not produce a guess), plus every 10th year (every year in thorough)
+        ys = set(years_for(list(probe[0].exact_editions) + list(probe[0].variation_editions)))
+        ys |= set(range(1600, date.today().year + 2, 1 if _TIER["t"] == "thorough" else 10))
+        for y in sorted(ys):
             for pos in POSITIONS:
                 yield {"part": sh["part"], "tok": tok, "text": render(rep, "%04d" % y, pos)}
 
